@@ -36,10 +36,12 @@ CHECKS = [
          technique="TLA+ model checking (TLC) + replay of TLC-generated Put histories + independent hash oracle"),
     dict(id="C03",
          text="TLC enumerates (object length x damaged blob x damage kind) and derives from Cafs.tla the outcomes each read "
-              "may have; each case is applied to the real blob store and observed through every read style of pkg/cafs",
+              "may have; each case is applied to the real blob store and observed through every read style of pkg/cafs (fresh readers, and "
+              "a reader that fetched the leaf before the damage and lost it from its one-leaf cache) and through a bundle download "
+              "(core.Publish; for a few cases into a destination store that retries failed writes)",
          design_ref="§3 C03",
-         note="Trusted: TLC, refinement map; damage is applied at rest and read through a fresh cafs instance. The bundle "
-              "download path is covered by the bundle checks",
+         note="Trusted: TLC, refinement map; damage is applied at rest. A leaf still held in a reader's cache may be served "
+              "unchanged; a partial file left behind by a FAILED download is not judged",
          technique="TLC-enumerated fault cases with specification-derived oracles, replayed on pkg/cafs"),
     dict(id="C04",
          text='Meta.tla (repos, bundles as index files + descriptor, labels; API operations as actions, results as operators) is model-checked exhaustively for small constants; TLC-generated histories of uploads (trees, explicit key lists), selective and single-file downloads by a client that knows only repository and id, and diffs are replayed on pkg/core; after every step the real stores are projected and compared with the specification, and every visible bundle is downloaded and compared byte for byte',
@@ -47,7 +49,7 @@ CHECKS = [
          note='Trusted: TLC, the projection (real store -> abstract state), the in-memory object store (checked against ObjectStore.tla), harness-chosen KSUIDs. Bounds: 3 prefix-related repos, 13 paths incl. generated decoys, look-alikes of the reserved names and a dotted sibling, 4 contents, <= 5-7 bundles, histories of 12-14 steps (random walks); 1000/1001-file bundles in a separate small run',
          technique='TLA+ model checking (TLC) of Meta.tla + replay of TLC-generated API behaviours on pkg/core with state projection compare'),
     dict(id="C05",
-         text='TLC-generated histories of uploads over a shared path pool (and delete-files rewrites) followed by diff and in-place update; diff compared with Meta!DiffOp, the updated directory - a fresh download or a copy taken before the bundle was rewritten - compared with a fresh download of the target (files and metadata)',
+         text='TLC-generated histories of uploads over a shared path pool (and delete-files rewrites) followed by diff and in-place update; diff compared with Meta!DiffOp, the updated directory - a fresh download or a copy taken before the bundle was rewritten - compared with a fresh download of the target (files and metadata); one scripted history replaces a file by a directory of the same name (one worker)',
          design_ref="§3 C05",
          note='Trusted: TLC, the projection (real store -> abstract state), the in-memory object store (checked against ObjectStore.tla), harness-chosen KSUIDs. Bounds: 3 prefix-related repos, 13 paths incl. generated decoys, look-alikes of the reserved names and a dotted sibling, 4 contents, <= 5-7 bundles, histories of 12-14 steps (random walks); 1000/1001-file bundles in a separate small run',
          technique='TLA+ model checking (TLC) of Meta.tla + replay of TLC-generated API behaviours on pkg/core with state projection compare'),
@@ -67,7 +69,7 @@ CHECKS = [
          note='Trusted: TLC, the projection (real store -> abstract state), the in-memory object store (checked against ObjectStore.tla), harness-chosen KSUIDs. Bounds: 3 prefix-related repos, 13 paths incl. generated decoys, look-alikes of the reserved names and a dotted sibling, 4 contents, <= 5-7 bundles, histories of 12-14 steps (random walks); 1000/1001-file bundles in a separate small run',
          technique='TLA+ model checking (TLC) of Meta.tla + replay of TLC-generated API behaviours on pkg/core with state projection compare'),
     dict(id="C09",
-         text='TLC-generated histories with delete-repo, rename-repo and delete-files over prefix-related repositories sharing content; plus scripted delete-files scenarios over bundles of two index files; the complete projection of both metadata stores is compared with the specification after every step (frame conditions also model-checked: AtMostTwoReposTouched)',
+         text='TLC-generated histories with delete-repo, rename-repo and delete-files over prefix-related repositories sharing content; plus scripted delete-files scenarios over bundles of two index files ending with a rename of that repository; the complete projection of both metadata stores is compared with the specification after every step (frame conditions also model-checked: AtMostTwoReposTouched)',
          design_ref="§3 C09",
          note='Trusted: TLC, the projection (real store -> abstract state), the in-memory object store (checked against ObjectStore.tla), harness-chosen KSUIDs. Bounds: 3 prefix-related repos, 13 paths incl. generated decoys, look-alikes of the reserved names and a dotted sibling, 4 contents, <= 5-7 bundles, histories of 12-14 steps (random walks); 1000/1001-file bundles in a separate small run. Concurrent creators: all interleavings of the store calls of 2-3 (4) concurrent CreateRepo under the gate scheduler, traces validated by CreateRepoTrace.tla (ExactlyOneWinner)',
          technique='TLA+ model checking (TLC) of Meta.tla + replay of TLC-generated API behaviours on pkg/core with state projection compare'),
@@ -82,7 +84,7 @@ CHECKS = [
          note="Trusted: TLC, refinement of abstract contents, harness re-timing of stored file lists. Bounds: quick = exhaustive for <= 2 versions over 3 splits x 2 paths x 2 contents x 4 modes x all orders + 500 sampled up to 5 versions/3 contents; thorough = exhaustive <= 3 versions (14 736 cases) + 3 000 sampled over 8 splits, 4 paths, 3 contents",
          technique="TLA+ model checking (TLC) + replay of TLC-enumerated merge cases on Diamond.Commit with forced arrival order"),
     dict(id="C12",
-         text="Diamond.tla (protocol at store-call granularity: split runs incl. reruns, committers with retry, canceler, crash anywhere) model-checked exhaustively; the real operations are driven by a gate scheduler through window and random interleavings of their store calls, crashes at every write and retries, and every recorded trace is validated event by event by DiamondTrace.tla (read results = spec state, create-if-absent discipline, operation results, content of committed bundles)",
+         text="Diamond.tla (protocol at store-call granularity: split runs incl. reruns, committers with retry, canceler, crash anywhere) model-checked exhaustively; the real operations are driven by a gate scheduler through window and random interleavings of their store calls, crashes at every write, transient read and write faults (diamond / split state, split file lists, index files) and retries, and every recorded trace is validated event by event by DiamondTrace.tla (read results = spec state, create-if-absent discipline, operation results, content of committed bundles)",
          design_ref="§3 C12",
          note="Trusted: TLC, the event classifier (store key -> marker kind), gate scheduler. Known finding: AtMostOneBundle is violated by the protocol itself for concurrent commits / crash before diamond-done + retry (shown on the model and reproduced on the code); all other properties hold. Bounds: quick = 12-runner-free small model (84 k states) + 205 scenarios; thorough = 12.7 M-state model, repaired protocol checked, ~1 900 scenarios",
          technique="TLA+ model checking (TLC) of the protocol + TLC trace validation of gate-scheduled executions of the real code"),
